@@ -74,6 +74,32 @@ func (e *Eval) doCall(fr *Frame, cc *ssa.CallCommon, args []Val, fnval Val, st *
 		default:
 			switch {
 			case fnval.Clo != nil:
+				if k := e.p.FuncContract(fnval.Clo.Fn); k != nil && !k.Inline && k.Wrapper == nil {
+					// a closure with its own contract (verified separately):
+					// captured variables are extra leading parameters
+					cf := fnval.Clo.Fn
+					var pnames, rnames []string
+					var ptypes []types.Type
+					var cargs []Val
+					for i, fv := range cf.FreeVars {
+						pnames = append(pnames, fv.Name())
+						ptypes = append(ptypes, fv.Type())
+						if i < len(fnval.Clo.Binds) {
+							cargs = append(cargs, fnval.Clo.Binds[i])
+						}
+					}
+					for _, p := range cf.Params {
+						pnames = append(pnames, p.Name())
+						ptypes = append(ptypes, p.Type())
+					}
+					cargs = append(cargs, args...)
+					for i := 0; i < cf.Signature.Results().Len(); i++ {
+						rnames = append(rnames, cf.Signature.Results().At(i).Name())
+					}
+					e.ghostCount(st, "$c."+relName(cf))
+					oc = e.applyContract(fr, k, cf.Pkg, pnames, ptypes, rnames, sig, cargs, st, cur, site)
+					break
+				}
 				oc = e.inlineP(fr, fnval.Clo.Fn, args, fnval.Clo.Binds, st, cur, panicking)
 			case fnval.Fn != nil:
 				oc = e.static(fr, cc, fnval.Fn, args, st, cur, site)
